@@ -137,8 +137,13 @@ class VCSStrategyGit(VCSStrategy):
             for entry in result.stdout.decode("utf-8").split("\0")
             if entry
         ]
-        # Each entry looks a little like 'submodule.submodule.path\nmy_path'.
-        return {Path(entry.splitlines()[1]) for entry in submodule_entries}
+        # Each entry looks a little like 'submodule.submodule.path\nmy_path'. A
+        # key without a value has no second line; there is no path to exclude.
+        return {
+            Path(entry.split("\n", 1)[1])
+            for entry in submodule_entries
+            if "\n" in entry
+        }
 
     def is_ignored(self, path: StrPath) -> bool:
         path = relative_from_root(path, self.root)
